@@ -55,6 +55,12 @@ def run(tier, seed):
             # a second directed family: some rows of the new file arrive through WriteRowGroup as a sorted buffer
             h = [dict(o, op="wrg") if o["op"] == "write" and k % 2 == 0 else o for k, o in enumerate(h)]
         scenarios.append({"id": len(scenarios) + 1, "cfg": cfg, "prior": prior, "h": h, "failAt": fail})
+    # a few of them at scale (large dictionaries that outgrow their pooled storage, many pages): see c01
+    for s in rnd.sample(scenarios, 4 if quick else 60):
+        total = sum(o.get("n", 0) for o in s["h"])
+        if total:
+            k = max(2, (7000 if quick else 12000) // total)
+            scenarios.append(dict(s, id=len(scenarios) + 1, scale=k, prior=[dict(o) for o in s["prior"]], h=[dict(o) for o in s["h"]]))
     vf.log(f"[C17] X: {x.distinct} states; scenarios {len(scenarios)}")
 
     # both builds run every scenario; the monitor joins them by scenario key
